@@ -9,7 +9,8 @@ EXPLANATION = (
     "primitive call takes its nonce from a generator step in the same function (one step per call), the generators mutate their state on "
     "every step, and nobody else in the stream codecs calls the primitives. N3 the client's datagram encode is dominated by the packet-id "
     "increment, which must not wrap; the server's increment is checked and its overflow edge ends the association. N4 the datagram "
-    "cipher-cache key is built from cipher kind, key identity and session id.")
+    "cipher-cache key is built from cipher kind, key identity and session id. N5 the material hashed into a per-session subkey "
+    "(blake3::derive_key) is exactly key||salt: `[key, salt].concat()` or buffer copies whose ranges provably tile the hashed slice.")
 ASSUMPTIONS = ["actual distinctness of random draws and ThreadRng entropy quality are not decided (probabilistic / library)",
                "uniqueness over whole histories is decided only through its structural causes"]
 
@@ -56,9 +57,82 @@ def derives_from_random(prog, b, local):
     return bool(locs & rl) or any(is_csprng_call(prog, c) for (_, c, _) in calls)
 
 
+def n5(ctx, prog, bodies):
+    """N5: the per-session subkey binds the salt — the key material handed to blake3::derive_key is exactly `key || salt`.
+    Accepted constructions: `[key, salt].concat()` (array of the two slices, the second one not a constant), or copies into a buffer
+    whose ranges provably tile the slice that is hashed (start of each piece == end of the previous one, as symbolic lengths)."""
+    from .. import bla
+    from ..bla import Lin
+    sites = [(b, blk, c, t) for b in bodies for (blk, c, t) in b.calls() if c.target.startswith("blake3::derive_key") or c.path == "blake3::derive_key"]
+    ctx.floor("N5", "blake3::derive_key call sites", 3, len(sites))
+    for (b, blk, c, t) in sites:
+        where = loc(t["sp"])
+        mp = op_place(t["args"][1]) if len(t["args"]) > 1 else None
+        if mp is None:
+            ctx.ob("N5", b.defp, "subkey-material-is-key-then-salt", where, False, "key material operand is a constant")
+            continue
+        # (1) concat of an array of two slices
+        _, calls, _ = b.slice_back([mp[0]], stop_call=lambda cc: (cc.method or "") in ("concat", "join"))
+        cc_ = [(cb, cx, ct) for (cb, cx, ct) in calls if (cx.method or "") == "concat"]
+        verdict = None
+        if cc_:
+            (cb, cx, ct) = cc_[0]
+            ap = op_place(ct["args"][0])
+            arr = None
+            locs, _, _ = b.slice_back([ap[0]], stop_call=lambda q: True) if ap else (set(), [], [])
+            for l in sorted(locs):
+                for d in b.defs().get(l, []):
+                    if d[0] == "assign" and d[3]["rv"]["k"] == "agg" and d[3]["rv"]["ak"] == "array":
+                        arr = d[3]["rv"]["ops"]
+            if arr is not None and len(arr) == 2:
+                roots = []
+                for o in arr:
+                    q = op_place(o)
+                    ls, _, _ = b.slice_back([q[0]], stop_call=lambda q_: True) if q else (set(), [], [])
+                    roots.append({l for l in ls if 1 <= l <= b.argc} | {l for l in ls if b.locals[l].get("user")})
+                ok = bool(roots[0]) and bool(roots[1]) and roots[0] != roots[1]
+                verdict = (ok, "key material is `[a, b].concat()` of two different inputs of this function" if ok else
+                           f"key material is a concat whose parts derive from {roots}: the second part must be the per-session salt")
+            else:
+                verdict = (False, f"key material is a concat of {len(arr) if arr is not None else '?'} parts; expected exactly key and salt")
+        else:
+            # (2) copies into ranges of a buffer: prove the tiling with symbolic lengths
+            an = bla.Analysis(prog)
+            try:
+                an.analyse_entry(prog.bodies[b.root] if b.root in prog.bodies else b)
+            except Exception as e:   # the interpreter must not take the rule down
+                an = None
+            w = [x for x in (an.watch.get(b.defp, []) if an else []) if x[0] == blk]
+            if not w or len(w[0][2]) < 2 or w[0][2][1] is None:
+                verdict = (False, "key material is neither `[key, salt].concat()` nor a tracked buffer: cannot show that the salt is part of what is hashed")
+            else:
+                M = w[0][2][1]
+                P, lo, hi = an.view_of.get(M, (M, Lin(0), None))
+                pieces = []
+                for (cblk, d, s_) in an.copies.get(b.defp, []):
+                    if d in an.view_of and an.view_of[d][0] == P:
+                        pieces.append((an.view_of[d][1], an.view_of[d][2], s_))
+                    elif d == P:
+                        pieces.append((Lin(0), None, s_))
+                pieces.sort(key=lambda x: (0 if x[0].is_const() and x[0].c == 0 else 1, repr(x[0])))
+                ok = len(pieces) >= 2 and pieces[0][0] == lo and all(p_[1] is not None for p_ in pieces)
+                if ok:
+                    for i in range(len(pieces) - 1):
+                        if not (pieces[i][1] == pieces[i + 1][0]):
+                            ok = False
+                    if hi is not None and not (pieces[-1][1] == hi):
+                        ok = False
+                desc = "; ".join(f"[{p_[0]} .. {p_[1]}) <- {p_[2]}" for p_ in pieces)
+                verdict = (ok, f"the pieces copied into the buffer tile the hashed range [{lo} .. {hi}): {desc}" if ok else
+                           f"the hashed range is [{lo} .. {hi}) but the pieces written are {desc or 'none'}: they do not tile it (a gap or an offset that is not the end of "
+                           f"the previous piece), so for some key/salt sizes the salt is not part of the subkey derivation and every session under that key shares one subkey")
+        ctx.ob("N5", b.defp, "subkey-material-is-key-then-salt", where, verdict[0], verdict[1])
+
+
 def run(ctx):
     prog = ctx.prog
     bodies = [b for b in prog.prod_bodies() if "::_" not in b.defp]
+    n5(ctx, prog, bodies)
     # ---------------- who-may-call -------------------------------------------------------------
     n_rng = 0
     for b in bodies:
